@@ -167,11 +167,32 @@ func ruleC11Bracket(c *Ctx) {
 					okAcc = knownNil(v, action.Block())
 				}
 			}
-			// deferred release before action
+			// deferred release before action — and only after access() succeeded (a rejected access must not release)
 			okRel := false
+			relBalanced := true
 			allInstrs(f, func(i ssa.Instruction) {
 				d, isD := i.(*ssa.Defer)
-				if !isD || !instrDominates(i, action) {
+				if !isD {
+					return
+				}
+				releases := false
+				if g := staticCallee(d); g != nil && g.Name() == "release" {
+					releases = true
+				}
+				if mc, isMC := d.Call.Value.(*ssa.MakeClosure); isMC {
+					allInstrs(mc.Fn.(*ssa.Function), func(j ssa.Instruction) {
+						if g := staticCallee(j); g != nil && g.Name() == "release" {
+							releases = true
+						}
+					})
+				}
+				if releases {
+					v, isV := acc.(ssa.Value)
+					if acc == nil || !isV || !instrDominates(acc, i) || !knownNil(v, i.Block()) {
+						relBalanced = false
+					}
+				}
+				if !instrDominates(i, action) {
 					return
 				}
 				if g := staticCallee(d); g != nil && g.Name() == "release" {
@@ -193,6 +214,8 @@ func ruleC11Bracket(c *Ctx) {
 			switch {
 			case !okAcc:
 				c.bad(construct, u.ipos(action), "the action runs on a path where access() is not known to have succeeded (bytes are PROT_NONE or the secret is closed: fault instead of an error)")
+			case !relBalanced:
+				c.bad(construct, u.ipos(action), "release() is deferred on a path where access() has not (yet) succeeded: a rejected access still decrements the reader count — with a reader in flight the pages go PROT_NONE under it and a waiting Close destroys the memory")
 			case !okRel:
 				c.bad(construct, u.ipos(action), "release() is not deferred before the action runs: a panicking action leaves the pages readable and the reader count raised (Close would wait forever)")
 			case !okBytes:
